@@ -28,7 +28,7 @@ package keeper
 //@ requires amount >= 0
 //@ requires addr != modAddr("commitment")
 //@ ensures C12/total-committed: err == nil && denom != ptypes.Eden && denom != ptypes.EdenB ==> c12TotalGap(ctx, d) == old(c12TotalGap(ctx, d))
-//@ ensures C12/account-delta: err == nil && denom != ptypes.Eden && denom != ptypes.EdenB ==> committedOf(k.GetCommitments(ctx, addr), d) == old(committedOf(k.GetCommitments(ctx, addr), d)) + ite(d == denom, amount, 0)
+//@ ensures C12,C07/account-delta: err == nil && denom != ptypes.Eden && denom != ptypes.EdenB ==> committedOf(k.GetCommitments(ctx, addr), d) == old(committedOf(k.GetCommitments(ctx, addr), d)) + ite(d == denom, amount, 0)
 //@ ensures C12/custody: err == nil && denom != ptypes.Eden && denom != ptypes.EdenB ==> c12CustodyGap(ctx, d) == old(c12CustodyGap(ctx, d))
 
 // UncommitTokens: the account's amount and the sum go down by exactly `amount`, the lock is
